@@ -438,6 +438,10 @@ func runC08(c *Ctx) {
 	R.Require("E6.flag", 32+21+15+2+7, "")
 	R.Require("E3.addition-len", 14, "")
 	R.Require("E3.addition-field", 20, "")
+	c.narrowArith(func(fn *ssa.Function) bool {
+		f := c.P.RelPos(fn.Pos())
+		return strings.Contains(f, "0x0200") || strings.Contains(f, "0x0704")
+	}, 3)
 	R.Explain = "Decided for all bodies: the base-block decoder reads each field at the standard's offset/width/byte order (symbolic extraction vs spec/location.json) and needs 28 bytes; each carrier passes it the right window; " +
 		"every alarm, status, extended-signal, IO and 苏标 vehicle-status flag is set exactly under a test of its own bit (semantic extraction, idiom independent); " +
 		"for each standard additional-information ID the accepted lengths equal the admissible ones and each value is read at the standard's offset inside the item; unknown IDs are kept verbatim. " +
